@@ -1,9 +1,13 @@
 (* Check/C15.v — correspondence comparator for C15 (LinearLeastSquares, PolynomialRegression, LOESS).
    Lines (hexadecimal integers; floats as IEEE-754 bit patterns; lists length-prefixed):
-     15 0 xs ys hasw ws  k col_1 .. col_k        status params unmodified          LinearLeastSquares
+     15 0 xs ys hasw ws  k col_1 .. col_k        status params unmodified  params'        LinearLeastSquares
      15 1 xs ys hasw ws  degree                  status coeffs  nq (x F(x))*  lstatus lparams unmodified
-                                                                                   PolynomialRegression (+ LLS on monomials)
-     15 2 xs ys degree span                      status nq (x qstatus value)* unmodified      LOESS
+                                                 coeffs' nq (F(x)')* lparams'      PolynomialRegression (+ LLS on monomials)
+     15 2 xs ys degree span                      status nq (x qstatus value)* unmodified  nq (qstatus' value')*   LOESS
+   The primed fields are a HISTORY: the same results read AGAIN after the harness ran other fits (same shape on
+   other data, larger, smaller, a LOESS closure) while still holding them; for LOESS the second half of the
+   queries is evaluated after such fits and all queries once more at the end.  They must equal the first reading
+   (a returned slice / closure that shares storage with later calls fails here).
    status: 0 returned, 2 panicked.  [col_j] are the values the j-th term function wrote (the harness owns the
    term functions), so any basis — polynomial, trigonometric, exponential — reaches the model exactly.
 
@@ -31,25 +35,30 @@ Definition p_optw : parser (option (list Q)) :=
 
 Inductive c15case :=
 | CLls (xs ys : list Q) (w : option (list Q)) (cols : list (list Q)) (st : Z) (params : list xreal) (unmod : bool)
+       (rparams : list xreal)
 | CPoly (xs ys : list Q) (w : option (list Q)) (deg : Z) (st : Z) (coeffs : list xreal) (qs : list (Q * xreal))
-        (lst : Z) (lparams : list xreal) (unmod : bool)
-| CLoess (xs ys : list Q) (deg : Z) (span : xreal) (st : Z) (qs : list (Q * Z * xreal)) (unmod : bool).
+        (lst : Z) (lparams : list xreal) (unmod : bool) (rcoeffs rfs rlparams : list xreal)
+| CLoess (xs ys : list Q) (deg : Z) (span : xreal) (st : Z) (qs : list (Q * Z * xreal)) (unmod : bool)
+         (rqs : list (Z * xreal)).
 
 Definition p_line : parser c15case :=
   do id <- pZ; if negb (id =? 15)%Z then (fun _ => None) else
   do op <- pZ;
   if (op =? 0)%Z then
     (do xs <- plist pQ; do ys <- plist pQ; do w <- p_optw; do cols <- plist_any (plist pQ);
-     do st <- pZ; do ps <- plist pX; do u <- pbool; pend (CLls xs ys w cols st ps u))
+     do st <- pZ; do ps <- plist pX; do u <- pbool; do rps <- plist pX; pend (CLls xs ys w cols st ps u rps))
   else if (op =? 1)%Z then
     (do xs <- plist pQ; do ys <- plist pQ; do w <- p_optw; do deg <- pZ;
      do st <- pZ; do cs <- plist pX;
      do qs <- plist_any (do x <- pQ; do v <- pX; pret (x, v));
-     do lst <- pZ; do lps <- plist pX; do u <- pbool; pend (CPoly xs ys w deg st cs qs lst lps u))
+     do lst <- pZ; do lps <- plist pX; do u <- pbool;
+     do rcs <- plist pX; do rfs <- plist pX; do rlps <- plist pX;
+     pend (CPoly xs ys w deg st cs qs lst lps u rcs rfs rlps))
   else if (op =? 2)%Z then
     (do xs <- plist pQ; do ys <- plist pQ; do deg <- pZ; do span <- pX;
      do st <- pZ; do qs <- plist_any (do x <- pQ; do s <- pZ; do v <- pX; pret (x, s, v));
-     do u <- pbool; pend (CLoess xs ys deg span st qs u))
+     do u <- pbool; do rqs <- plist_any (do s <- pZ; do v <- pX; pret (s, v));
+     pend (CLoess xs ys deg span st qs u rqs))
   else (fun _ => None).
 
 (* ---------- helpers ---------- *)
@@ -66,6 +75,19 @@ Fixpoint all_some {A} (l : list (option A)) : option (list A) :=
   | [] => Some []
   | Some a :: t => match all_some t with Some r => Some (a :: r) | None => None end
   | None :: _ => None
+  end.
+(* the re-read observables equal the first reading: same NaN-ness / infinity / number *)
+Fixpoint xlist_eq (a b : list xreal) : bool :=
+  match a, b with
+  | [], [] => true
+  | x :: a', y :: b' => xeq x y && xlist_eq a' b'
+  | _, _ => false
+  end.
+Fixpoint reread_ok (qs : list (Q * Z * xreal)) (rqs : list (Z * xreal)) : bool :=
+  match qs, rqs with
+  | [], [] => true
+  | (_, st, v) :: qs', (st', v') :: rqs' => (st =? st')%Z && xeq v v' && reread_ok qs' rqs'
+  | _, _ => false
   end.
 Fixpoint vadd (a b : list Q) : list Q :=
   match a, b with x :: a', y :: b' => qadd x y :: vadd a' b' | _, _ => [] end.
@@ -283,15 +305,17 @@ Definition first_two (vs : list Z) : option Z := first_bad (fun c => negb (c =? 
 Definition alt_q_ok (vs' : list Z) : bool := forallb (fun c => negb (c =? 2)%Z) vs'.
 
 Definition check_loess (xs ys : list Q) (deg : Z) (span : xreal) (st : Z) (qs : list (Q * Z * xreal)) (unmod : bool)
-  : list Z :=
+  (rqs : list (Z * xreal)) : list Z :=
   match span with
   | XFin s =>
     if negb (length xs =? length ys)%nat then verdict V_MALFORMED 0 (-1) []
     else if (deg <? 0)%Z || Qle_bool s 0 then
-      (if (st =? 2)%Z && unmod && (length qs =? 0)%nat then verdict V_OK 0 (-1) [] else verdict V_MISMATCH 0 0 [])
+      (if (st =? 2)%Z && unmod && (length qs =? 0)%nat && (length rqs =? 0)%nat
+       then verdict V_OK 0 (-1) [] else verdict V_MISMATCH 0 0 [])
     else if negb (st =? 0)%Z then verdict V_MISMATCH 0 0 []
     else if negb unmod then verdict V_MISMATCH 0 1 []
     else if (length qs =? 0)%nat then verdict V_MALFORMED 0 (-1) []     (* the closure was never called *)
+    else if negb (reread_ok qs rqs) then verdict V_MISMATCH 0 1 [7%Z]   (* a later evaluation differs from the first *)
     else
       let n := length xs in
       let '(sx, sy) := loess_prepare xs ys in
@@ -329,14 +353,16 @@ Definition nonneg_w (w : option (list Q)) : bool :=
 Definition hasw (w : option (list Q)) : bool := match w with Some _ => true | None => false end.
 
 Definition check_lls (xs ys : list Q) (w : option (list Q)) (cols : list (list Q)) (st : Z) (ps : list xreal) (unmod : bool)
-  : list Z :=
+  (rps : list xreal) : list Z :=
   let nx := length xs in
   if (nx =? 0)%nat || (length cols =? 0)%nat || negb (nonneg_w w) then verdict V_MALFORMED 0 (-1) []
   else if lens_panic nx ys w then
-    (if (st =? 2)%Z && unmod && (length ps =? 0)%nat then verdict V_OK 0 (-1) [] else verdict V_MISMATCH 0 0 [])
+    (if (st =? 2)%Z && unmod && (length ps =? 0)%nat && (length rps =? 0)%nat
+     then verdict V_OK 0 (-1) [] else verdict V_MISMATCH 0 0 [])
   else if negb (forallb (fun c => (length c =? nx)%nat) cols) then verdict V_MALFORMED 0 (-1) []
   else if negb (st =? 0)%Z then verdict V_MISMATCH 0 0 []
   else if negb unmod then verdict V_MISMATCH 0 5 []
+  else if negb (xlist_eq ps rps) then verdict V_MISMATCH 0 7 []     (* the parameters changed after they were returned *)
   else
     let wl := weights_or_ones nx w in
     match fit_ref cols wl ys with
@@ -351,15 +377,18 @@ Definition check_lls (xs ys : list Q) (w : option (list Q)) (cols : list (list Q
     end.
 
 Definition check_poly (xs ys : list Q) (w : option (list Q)) (deg : Z) (st : Z) (cs : list xreal)
-  (qs : list (Q * xreal)) (lst : Z) (lps : list xreal) (unmod : bool) : list Z :=
+  (qs : list (Q * xreal)) (lst : Z) (lps : list xreal) (unmod : bool) (rcs rfs rlps : list xreal) : list Z :=
   let nx := length xs in
   if (nx =? 0)%nat || negb (nonneg_w w) then verdict V_MALFORMED 0 (-1) []
   else if (deg <? 0)%Z || lens_panic nx ys w then
     (if (st =? 2)%Z && unmod && (length cs =? 0)%nat && (length qs =? 0)%nat
+        && (length rcs =? 0)%nat && (length rfs =? 0)%nat && (length rlps =? 0)%nat
      then verdict V_OK 0 (-1) [] else verdict V_MISMATCH 0 0 [])
   else if negb (st =? 0)%Z then verdict V_MISMATCH 0 0 []
   else if negb unmod then verdict V_MISMATCH 0 5 []
   else if (length qs =? 0)%nat then verdict V_MALFORMED 0 (-1) []     (* F was not observed *)
+  else if negb (xlist_eq cs rcs && xlist_eq (map snd qs) rfs && xlist_eq lps rlps)
+  then verdict V_MISMATCH 0 7 []      (* Coefficients, F or the twin's parameters changed after they were returned *)
   else
     let wl := weights_or_ones nx w in
     let cols := monomials (Z.to_nat deg) xs in
@@ -393,7 +422,7 @@ Definition check_poly (xs ys : list Q) (w : option (list Q)) (deg : Z) (st : Z) 
 Definition check_C15 (line : list Z) : list Z :=
   match p_line line with
   | None => verdict V_MALFORMED 0 (-1) []
-  | Some (CLls xs ys w cols st ps u, _) => check_lls xs ys w cols st ps u
-  | Some (CPoly xs ys w deg st cs qs lst lps u, _) => check_poly xs ys w deg st cs qs lst lps u
-  | Some (CLoess xs ys deg span st qs u, _) => check_loess xs ys deg span st qs u
+  | Some (CLls xs ys w cols st ps u rps, _) => check_lls xs ys w cols st ps u rps
+  | Some (CPoly xs ys w deg st cs qs lst lps u rcs rfs rlps, _) => check_poly xs ys w deg st cs qs lst lps u rcs rfs rlps
+  | Some (CLoess xs ys deg span st qs u rqs, _) => check_loess xs ys deg span st qs u rqs
   end.
